@@ -280,7 +280,9 @@ def r4_tables(ctx):
             commute_bad.append((sorted(S), got, mirror))
     ctx.ob(f"{mrg.key}:table", mrg.loc(), f"merge() of argument-wise comparisons: all SAME -> SAME; LESS/SAME only -> LESS; MORE/SAME only -> MORE; otherwise NONE ({n_sets} subsets enumerated)", not bad, f"merge() deviates, e.g. merge({bad[0][0]}) = {bad[0][1]} (expected {bad[0][2]})" if bad else "")
     ctx.ob(f"{mrg.key}:commutes-with-opposite", mrg.loc(), f"merge(opposite of each) == opposite(merge) on all {n_sets} non-empty subsets", not commute_bad, f"merge does not commute with opposite, e.g. on {commute_bad[0][0]}: {commute_bad[0][1]} vs {commute_bad[0][2]}: generic types compare differently in the two directions" if commute_bad else "")
-    # union / intersection tails
+    # union / intersection: the whole hook interpreted on 1..3 members with every assignment of member comparisons
+    import itertools
+
     repo = ctx.repo
     want = {
         "Union": lambda S: "NONE" if not S else ("MORE" if S & {"MORE", "SAME"} else "LESS"),
@@ -293,37 +295,34 @@ def r4_tables(ctx):
             ctx.touch(m)
             rv = recv_name(m)
             other = [p for p in m.params if p != rv][0]
-            comp_assign = None
-            for i, st in enumerate(m.node.body):
-                if isinstance(st, ast.Assign) and isinstance(st.value, ast.ListComp) and isinstance(st.targets[0], ast.Name):
-                    comp_assign = (i, st)
-            ctx.require(comp_assign is not None, f"{m.key}: no list of member comparisons")
-            i, st = comp_assign
-            cname = st.targets[0].id
-            lc = st.value
-            g = lc.generators[0]
-            # every member compared member-first, only NONE filtered out
-            calls = [x for x in ast.walk(lc) if isinstance(x, ast.Call) and call_name(x) == "typeorder"]
-            its = src(g.iter)
-            iter_all = its == f"{rv}.types" or any(isinstance(s, ast.Assign) and dotted(s.targets[0]) == its and src(s.value) == f"{rv}.types" for s in m.node.body)
-            member_first = len(calls) == 1 and dotted(calls[0].args[0]) == dotted(g.target) and dotted(calls[0].args[1]) == other
-            filt = [a for cond in g.ifs for a in atoms(cond)]
-            only_none = len(filt) == 1 and filt[0][0] == "cmp" and filt[0][1] == "IsNot" and "Order.NONE" in (src(filt[0][2]), src(filt[0][3]))
-            ctx.ob(f"{m.key}:member-comparisons", m.loc(st), f"{c.name} compares every member with the other type (member first) and discards only the unrelated ones", iter_all and member_first and only_none, f"`{short(st, 70)}` does not compare every member in member-first order keeping all related answers")
-            fake = ast.FunctionDef(name="tail", args=m.node.args, body=m.node.body[i + 1 :], decorator_list=[], lineno=st.lineno)
             table = {}
             bad = []
-            for S in subsets(("LESS", "MORE", "SAME")):
-                got = it.run(fake, {cname: tuple(sorted(S)), rv: None, other: None})
-                table[tuple(sorted(S))] = got
-                if got != want[c.name](S):
-                    bad.append((sorted(S), got, want[c.name](S)))
+            order_bad = []
+            cases = 0
+            for k in (1, 2, 3):
+                members = tuple(f"m{i}" for i in range(k))
+                for assign in itertools.product(MEMBERS, repeat=k):
+                    tab = dict(zip(members, assign))
+
+                    def to(a, b, tab=tab):
+                        if b != "O" or a not in tab:
+                            order_bad.append((a, b))
+                            return "NONE"
+                        return tab[a]
+
+                    got = Interp(en.name, stubs={"typeorder": to}).run(m.node, {rv: "SELF", other: "O", f"{rv}.types": members, f"{rv}.__args__": members, c.name: "THE-CLASS"})
+                    cases += 1
+                    S = frozenset(x for x in assign if x != "NONE")
+                    table[tuple(sorted(S))] = got
+                    if got != want[c.name](S):
+                        bad.append((dict(tab), got, want[c.name](S)))
             tails[c.name] = table
             rel = "more general than" if c.name == "Union" else "more specific than"
+            ctx.ob(f"{m.key}:member-comparisons", m.loc(), f"{c.name} compares its members with the other type member-first", not order_bad, f"{c.name}.__type_order__ calls the order function as {order_bad[:1]}: the member must come first")
             ctx.ob(
                 f"{m.key}:tail-table",
                 m.loc(),
-                f"{c.name}: no related member -> NONE; a member that is {'more general than or the same as' if c.name == 'Union' else 'more specific than or the same as'} the other type -> {'MORE' if c.name == 'Union' else 'LESS'}; else {'LESS' if c.name == 'Union' else 'MORE'} (8 subsets enumerated)",
+                f"{c.name}: no related member -> NONE; a member that is {'more general than or the same as' if c.name == 'Union' else 'more specific than or the same as'} the other type -> {'MORE' if c.name == 'Union' else 'LESS'}; else {'LESS' if c.name == 'Union' else 'MORE'} ({cases} cases interpreted)",
                 not bad,
                 f"{c.name}.__type_order__ answers {bad[0][1]} for member comparisons {bad[0][0]} (expected {bad[0][2]}): a {c.name.lower()} is not {rel} each of its members" if bad else "",
             )
@@ -383,46 +382,17 @@ def r5_subclass_fallback(ctx):
 
 def r6_dependent_pairs(ctx):
     """Two value-dependent types: ordered like their bounds; on equal bounds by the mirrored `<` of the types."""
-    dm = A.dependent_meta(ctx.repo)
-    m = dm.methods.get("__type_order__")
-    ctx.require(m is not None, f"{dm.key} lost __type_order__")
+    from .c10 import dependent_order_table
+
+    m, rows = dependent_order_table(ctx)
     ctx.touch(m)
-    rv = recv_name(m)
-    other = [p for p in m.params if p != rv][0]
-    br = None
-    for st in m.node.body:
-        if isinstance(st, ast.If) and isinstance(st.test, ast.Call) and call_name(st.test) == "isinstance" and dotted(st.test.args[0]) == other and dotted(st.test.args[1]) == dm.name:
-            br = st
-    ctx.require(br is not None, f"{m.key}: no branch for a dependent operand")
-    # every path of that branch returns (no fall-through into the plain-type logic)
-    from ..cfg import CFG
-
-    fake = ast.FunctionDef(name="b", args=m.node.args, body=br.body, decorator_list=[], lineno=br.lineno)
-    c = CFG(fake)
-    falls = any(n.kind != "return" and n.kind != "raise" for n in [c.nodes[p] for p in c.pred[c.exit]])
-    bounds = [s for s in br.body if isinstance(s, ast.Assign) and isinstance(s.value, ast.Call) and call_name(s.value) == "typeorder"]
-    in_order = bool(bounds) and [src(a) for a in bounds[0].value.args] == [f"{rv}.bound", f"{other}.bound"]
-    var = dotted(bounds[0].targets[0]) if bounds else None
-    same_if = [s for s in br.body if isinstance(s, ast.If) and var and any(isinstance(x, ast.Name) and x.id == var for x in ast.walk(s.test)) and "SAME" in src(s.test)]
-    returns_order = False
-    mirrored = False
-    if same_if:
-        s = same_if[0]
-        returns_order = any(isinstance(x, ast.Return) and dotted(x.value) == var for x in s.orelse)
-        got = {}
-        from .c14 import flatten_chain
-
-        for test, body, node in flatten_chain(s.body):
-            r = [x for x in body if isinstance(x, ast.Return)]
-            if r:
-                got[src(test) if test is not None else "else"] = src(r[0].value)
-        mirrored = got.get(f"{rv} < {other}") == "Order.LESS" and got.get(f"{other} < {rv}") == "Order.MORE" and got.get("else") == "Order.NONE"
+    bad = [r for r in rows if r[0].startswith("dependent") and r[1] != r[2]]
     ctx.ob(
         f"{m.key}:dependent-vs-dependent",
-        m.loc(br),
-        "two value-dependent types are ordered like their bounds (compared in order); on equal bounds by the mirrored `<`; the branch always answers itself",
-        in_order and returns_order and mirrored and not falls,
-        "two dependent types with differently ordered bounds no longer answer with the order of their bounds (or the branch falls through into the plain-type logic, which can only say LESS or NONE): typeorder(a, b) and typeorder(b, a) stop being mirror images",
+        m.loc(),
+        "two value-dependent types are ordered like their bounds; on equal bounds LESS / MORE by the mirrored `<`, else NONE (7 cases interpreted)",
+        not bad,
+        f"{bad[0][0]}: answers {bad[0][1]} instead of {bad[0][2]}: typeorder(a, b) and typeorder(b, a) stop being mirror images for two dependent types" if bad else "",
     )
 
 
@@ -465,5 +435,5 @@ RULES = [
     ("C12.R1", "P1", r1_swap_parity, "swap parity"),
     ("C12.R2", "P1", r2_reflexive_first, "reflexive shortcut first"),
     ("C12.R3", "P1", r3, "no zip of two types' parameters without a length guard"),
-    ("C12.R4", "P2", r4_tables, "decision tables of the Order-valued code"),
+    ("C12.R4", "P1", r4_tables, "decision tables of the Order-valued code"),
 ]
